@@ -16,7 +16,8 @@ def goodFacts : Facts02 :=
     nativeKindFault := true, binKindFault := true, rawBytesKindFault := true, nestedArrayOk := true, parseErrorsFault := true, binTextValidated := true, missingBodyFault := true,
     guardPathLocal := true, fileFormValidated := true,
     mpBytesTable := SpyneModel.Generated.facts02.mpBytesTable, mpBoolPassThrough := [], tableUtf8Fault := true,
-    bytesJoinBeforeEncode := true, retagSubclassChecked := true }
+    bytesJoinBeforeEncode := true, retagSubclassChecked := true,
+    notWrappedStrKeys := true, notWrappedBytesKeys := true, nonNumberForNumber := [], noFreqKeepsValidation := true, valuesNullTestIsNone := true }
 
 def jText (j : Json) : Text :=
   match j with
@@ -203,7 +204,9 @@ def jCfg (j : Json) : Cfg :=
     complexAs := (match getStr j "cas" with | "list" => .list | _ => .dict),
     polymorphic := getBool j "poly",
     mpRaw := getBool j "raw",
-    mpBinType := (match jField j "bin" with | .bool b => b | _ => true) }
+    mpBinType := (match jField j "bin" with | .bool b => b | _ => true),
+    notWrapped := (match jField j "nw" with | .arr a => a.toList.map jText | _ => []),
+    noFreq := (match jField j "nofreq" with | .arr a => a.toList.map jText | _ => []) }
 
 def resJson {α} (f : α → Json) : Res α → Json
   | .ok a false => Json.mkObj [("ok", f a)]
